@@ -16,11 +16,13 @@
      `dropRunesTicks_eq`, `walkFwdTicks_eq`, `runeOffsetTicks_eq`, …  — ticks = closed form on the actual data
   4. `result_size_bounds`                                              — memory
   5. `index_const`
-  6. `parseInt64_range`                                                — integer literals out of range are errors
+  6. `parseInt64_range`, `parseInt64_in_range`, `indexP_bad_literal`   — integer literals out of range are errors
+  7. `fuel_sufficient` (proved in `Jmes/Proofs/Fuel.lean`)             — the parser's fuel never runs out
 -/
 import Jmes.Spec.Cost
 import Jmes.Proofs.Utf8
 import Jmes.Properties.C12
+import Jmes.Proofs.Fuel
 namespace Jmes.C09
 open Jmes Jmes.Cost
 
@@ -1481,5 +1483,15 @@ theorem indexP_bad_literal (child : Option INode) (s : PState) (h1 : s.curr.type
 example : Parser.indexP none ⟨⟨.integerLiteral, [0x39, 0x32, 0x32, 0x33, 0x33, 0x37, 0x32, 0x30, 0x33, 0x36, 0x38, 0x35,
     0x34, 0x37, 0x37, 0x35, 0x38, 0x30, 0x38]⟩, ⟨.closeSqBrace, [0x5D]⟩, [], none⟩ = .error .invalidIndex :=
   indexP_bad_literal _ _ rfl (by decide)
+
+/-! ## 7. The parser's recursion budget is sufficient -/
+
+/-- `Parser.fuelFor ntokens = 8 * ntokens + 32` always suffices: the model-only error `fuel` is unreachable, so
+    parsing terminates within a number of recursive calls linear in the number of tokens
+    (proof: `Jmes/Proofs/Fuel.lean`) -/
+theorem fuel_sufficient : ∀ expr : Bytes, Parser.parse expr ≠ .error .fuel := Fuel.fuel_sufficient
+
+example : Parser.parse [0x5B, 0x39, 0x39, 0x39, 0x39, 0x39, 0x39, 0x39, 0x39, 0x39, 0x39, 0x39, 0x39, 0x39, 0x39, 0x39,
+    0x39, 0x39, 0x39, 0x39, 0x39, 0x5D] ≠ .error .fuel := fuel_sufficient _
 
 end Jmes.C09
